@@ -22,6 +22,22 @@ EXTRA_TARGETS = ["drv_c15"]
 SIZES = [(1, 1), (7, 3), (8, 8), (9, 9), (16, 16), (33, 17), (64, 64)]
 FINDING_CLIP = "cursor-clip-last-col-row"
 FINDING_COLOUR = "xcursor-colour-unscaled"
+# client pixel formats the scripts can name: bytes/pixel, (redMax, greenMax, blueMax), (shifts)
+FMTS = {"f8": (1, (7, 7, 3), (0, 3, 6)), "f8b": (1, (7, 7, 3), (5, 2, 0)),
+        "f16": (2, (31, 31, 31), (0, 5, 10)), "f16b": (2, (31, 63, 31), (11, 5, 0)),
+        "f32": (4, (255, 255, 255), (0, 8, 16)), "f32b": (4, (255, 255, 255), (16, 8, 0))}
+SERVER_FMT = {1: "f8", 2: "f16", 4: "f32"}
+
+
+def translate_px(p, sname, cname):
+    """the RFB translation rule for one pixel, re-implemented here for the oracle"""
+    _, smax, ssh = FMTS[sname]
+    _, cmax, csh = FMTS[cname]
+    out = 0
+    for k in range(3):
+        c = (p >> ssh[k]) & smax[k]
+        out |= ((c * cmax[k] + smax[k] // 2) // smax[k]) << csh[k]
+    return out
 
 
 def hx(b):
@@ -142,7 +158,10 @@ def gen_script(rng, big=False, midfail=False):
         kinds.append(rng.choice(["x", "rich", "raw"]))
     rng.shuffle(kinds)
     for i, k in enumerate(kinds):
-        lines.append("client %d %s" % (i, k))
+        if rng.random() < 0.4:
+            lines.append("client %d %s %s" % (i, k, rng.choice(sorted(FMTS))))
+        else:
+            lines.append("client %d %s" % (i, k))
     nrounds = rng.choice([2, 4, 7, 10]) if not big else 3
     for r in range(nrounds):
         if rng.random() < 0.25:
@@ -201,7 +220,7 @@ def parse_cursor_op(t, bpp):
     return s
 
 
-def check_shape(shape, ckind, cur, bpp):
+def check_shape(shape, ckind, cur, bpp, cfmt=None):
     """cursor pseudo-rectangle vs the script's cursor: exact size, hot-spot, colours/pixels, mask"""
     tag = "X" if ckind == "x" else "R"
     if shape == "-":
@@ -225,7 +244,8 @@ def check_shape(shape, ckind, cur, bpp):
         return "cursor rectangle says hot=%d,%d size=%dx%d, cursor is hot=%d,%d size=%dx%d" % (
             xh, yh, w, h, cur["xh"], cur["yh"], cur["w"], cur["h"])
     mb = rb(w) * h
-    want_len = 6 + 2 * mb if tag == "X" else w * h * bpp + mb
+    cb = FMTS[cfmt][0] if cfmt else bpp
+    want_len = 6 + 2 * mb if tag == "X" else w * h * cb + mb
     if len(payload) != want_len:
         return "cursor payload has %d bytes, expected %d" % (len(payload), want_len)
     if "mask" in cur and payload[-mb:] != cur["mask"]:
@@ -236,8 +256,18 @@ def check_shape(shape, ckind, cur, bpp):
             return "XCursor colours %s, cursor has %s" % (payload[:6].hex(), col.hex())
         if payload[6:6 + mb] != cur["src"]:
             return "XCursor bitmap differs from the cursor's source bitmap"
-    if tag == "R" and cur["kind"] in ("rich", "alpha") and payload[:w * h * bpp] != cur["pix"]:
-        return "RichCursor pixels differ from the cursor's pixels"
+    if tag == "R" and cur["kind"] in ("rich", "alpha"):
+        if cfmt is None or cfmt == SERVER_FMT[bpp]:
+            if payload[:w * h * bpp] != cur["pix"]:
+                return "RichCursor pixels differ from the cursor's pixels"
+        else:
+            for k in range(w * h):
+                src = int.from_bytes(cur["pix"][k * bpp:(k + 1) * bpp], "little")
+                got = int.from_bytes(payload[k * cb:(k + 1) * cb], "little")
+                want = translate_px(src, SERVER_FMT[bpp], cfmt)
+                if got != want:
+                    return "RichCursor pixel %d,%d is %x, the cursor's pixel %x translated to %s is %x" % (
+                        k % w, k // w, got, src, cfmt, want)
     return None
 
 
@@ -248,7 +278,7 @@ def oracle(script, impl):
     i = 0
     bpp, W, H = 4, 0, 0
     cur = {"kind": "none"}
-    kinds, dead, owed_shape, owed_pos = {}, set(), {}, {}
+    kinds, dead, owed_shape, owed_pos, cfmts = {}, set(), {}, {}, {}
     pos, pclient = (0, 0), None
     for op in ops:
         t = op.split()
@@ -290,7 +320,7 @@ def oracle(script, impl):
                     return "client %d could not parse the server's output" % cid
                 if kinds[cid] != "raw":
                     if owed_shape.get(cid):
-                        e = check_shape(m.group(9), kinds[cid], cur, bpp)
+                        e = check_shape(m.group(9), kinds[cid], cur, bpp, cfmts.get(cid))
                         if e:
                             return "client %d: %s" % (cid, e)
                         owed_shape[cid] = False
@@ -312,6 +342,7 @@ def oracle(script, impl):
         elif t[0] == "client":
             c = int(t[1])
             kinds[c] = t[2]
+            cfmts[c] = t[3] if len(t) > 3 else None
             owed_shape[c] = True
             owed_pos[c] = t[2] != "raw"
         elif t[0] == "ptr":
@@ -330,6 +361,7 @@ def oracle(script, impl):
 
 
 def stats_of(script, impl, dist):
+    sbpp = 4
     for l in script.splitlines():
         t = l.split()
         if not t:
@@ -338,6 +370,11 @@ def stats_of(script, impl, dist):
         dist["ops"][k] = dist["ops"].get(k, 0) + 1
         if t[0] == "screen":
             dist["bpp"][t[3]] = dist["bpp"].get(t[3], 0) + 1
+            sbpp = int(t[3])
+        if t[0] == "client":
+            cf = t[3] if len(t) > 3 else "server"
+            key = "%s:%s" % (t[2], "server" if cf in ("server", SERVER_FMT.get(sbpp)) else "%dto%d" % (sbpp * 8, FMTS[cf][0] * 8) + ("" if FMTS[cf][0] != sbpp else "-other-shifts"))
+            dist["client_format"][key] = dist["client_format"].get(key, 0) + 1
         if t[0] == "cursor" and len(t) > 3:
             sz = "%sx%s" % (t[2], t[3])
             if (int(t[2]), int(t[3])) not in SIZES:
@@ -360,6 +397,36 @@ def stats_of(script, impl, dist):
     return painted
 
 
+def matrix_scripts(rng):
+    """deterministic part of every run: every server depth x every client pixel format x every client
+    kind, with multi-row rich / X / alpha cursors, so that pixel translation of Raw data and of the
+    RichCursor payload (input row stride!) is exercised for every bytes-per-pixel combination"""
+    out = []
+    for sb in (1, 2, 4):
+        for cf in sorted(FMTS):
+            for kind in ("rich", "raw", "x"):
+                W, H = 13, 9
+                lines = ["screen %d %d %d" % (W, H, sb)]
+                w, h = rng.choice([(5, 4), (9, 3), (3, 7), (16, 2)])
+                pix = bytes(rng.randrange(256) for _ in range(w * h * sb))
+                mask = rand_bits(rng, w, h, "dense", True)
+                lines.append("cursor rich %d %d %d %d %s %s 65535 0 0 0 0 65535" % (w, h, 1, 1, hx(pix), hx(mask)))
+                lines.append("client 0 %s %s" % (kind, cf))
+                lines.append("client 1 raw")
+                lines += ["ptr 1 4 3 0", "req 0 0 0 0 %d %d" % (W, H), "req 1 0 0 0 %d %d" % (W, H), "pump"]
+                src = rand_bits(rng, 7, 5, "random", True)
+                lines.append("cursor x 7 5 0 0 %s %s 65535 32768 0 0 0 65535" % (hx(src), hx(rand_bits(rng, 7, 5, "dense", True))))
+                lines += ["ptr 1 %d %d 0" % (W - 3, H - 2), "draw 2 1 6 5 %d" % rng.randint(1, 999),
+                          "req 0 1 0 0 %d %d" % (W, H), "req 1 1 0 0 %d %d" % (W, H), "pump"]
+                w, h = 6, 6
+                pix = bytes(rng.randrange(256) for _ in range(w * h * sb))
+                alpha = bytes(rng.choice([0, 255, 255, rng.randrange(256)]) for _ in range(w * h))
+                lines.append("cursor alpha %d %d 2 2 %s %s %d" % (w, h, hx(pix), hx(alpha), rng.randint(0, 1)))
+                lines += ["ptr 1 6 4 0", "req 0 1 0 0 %d %d" % (W, H), "req 1 1 0 0 %d %d" % (W, H), "pump"]
+                out.append("\n".join(lines) + "\n")
+    return out
+
+
 def load_corpus():
     out = []
     for p in sorted(glob.glob(os.path.join(common.VERIF, "corpus", "C15", "*.ops"))):
@@ -372,7 +439,7 @@ def run(ctx):
     d = ctx.driver("drv_c15")
     fails, samples = [], []
     dist = {"ops": {}, "bpp": {}, "cursor_size": {}, "updates": 0, "failed_updates": 0, "bad_ops": 0,
-            "oracle_checks": 0, "updates_with_cursor_painted": 0, "midstream_failure_scripts": 0,
+            "oracle_checks": 0, "updates_with_cursor_painted": 0, "client_format": {}, "midstream_failure_scripts": 0,
             "explained_by_known_defect": {}}
     scripts = []
     if ctx.replay:
@@ -381,7 +448,9 @@ def run(ctx):
     else:
         for name, sc in load_corpus():
             scripts.append(("corpus:" + name, sc, True))
-        n = 400 if ctx.tier == "quick" else 15000
+        for sc in matrix_scripts(ctx.rng):
+            scripts.append(("matrix", sc, True))
+        n = 350 if ctx.tier == "quick" else 15000
         for k in range(n):
             scripts.append(("gen", gen_script(ctx.rng), True))
         for k in range(8 if ctx.tier == "quick" else 300):
@@ -456,7 +525,7 @@ def run(ctx):
     fails.sort(key=lambda r: (1 if r.get("finding") else 0, 0 if r["kind"] in ("oracle", "crash") else 1))
     return {
         "evaluations": evals, "distinct_nontrivial": len(nontrivial),
-        "rule": "scripted sessions (screen 8/16/32 bpp, cursors 1x1..64x64 of five kinds, 1-3 clients raw/XCursor/RichCursor, "
+        "rule": "scripted sessions (screen 8/16/32 bpp, cursors 1x1..64x64 of five kinds, 1-3 clients raw/XCursor/RichCursor in the server's or a different pixel format (6 formats; all 3x6x3 depth/format/kind combinations deterministically), "
                 "pointer events on an edge lattice incl. off-screen and 65535, draws, requests, cursor replacement, write failures); "
                 "non-trivial = distinct script with at least one update during which the soft cursor was really painted "
                 "(framebuffer hash at the pre-encode hook differs from the hash before the update)",
@@ -473,7 +542,7 @@ PARTIAL = [
 ]
 ASSUMPTIONS = [
     "regions are pixel sets (that rfbregion.c implements set algebra is property C11); the harness sets maxRectsPerUpdate high so that the update region is not coarsened to its bounding box (coarsening only enlarges what is sent)",
-    "row stride = width*bytesPerPixel (asserted by the harness); clients use the server's pixel format (translateFn = rfbTranslateNone; translation is property C10)",
+    "row stride = width*bytesPerPixel (asserted by the harness); client pixel formats are little-endian true-colour formats whose channels fit the pixel: translation of a pixel is modelled by its value (rescaled channels), the table machinery is property C10",
     "single-threaded application-driven event loop; no CopyRect, no scaling, no NewFBSize (C02/C16/C17)",
     "cursor change and pointer movement happen between updates (the bracket show..hide is not interrupted)",
 ]
